@@ -109,6 +109,7 @@ PROPS = {
         "level": "exploration",
         "tests": [
             {"name": "TestC05A", "quick": 480, "thorough": 12000, "shards_quick": 12},
+            {"name": "TestC05ARace", "quick": 60, "thorough": 1200, "race": True, "shards_quick": 6},
             {"name": "TestC05B", "quick": 400, "thorough": 8000, "shards_quick": 4},
         ],
     },
